@@ -1,6 +1,6 @@
 (* C14 — table obligations: facts about pac/ascii_pac_utils.js and pac/*.go as
    extracted into Tables.v on this run, each discharged by closed computation. *)
-From G14 Require Import Model.
+From G14 Require Import Model PinnedExpected.
 
 (* shExpMatch rewrites '.' to '\.', then '*' to '.*', then '?' to '.', in this order, and anchors the expression *)
 Lemma ob_shexp_rewrites : shexp_rewrites = [(46, [92; 46]); (42, [46; 42]); (63, [46])].
@@ -16,6 +16,11 @@ Proof. vm_compute. split; reflexivity. Qed.
 Lemma ob_result_checks : result_string_checked = true /\ result_ascii_checked = true.
 Proof. vm_compute. split; reflexivity. Qed.
 Lemma ob_entry_both_is_error : entry_both_is_error = true.
+Proof. vm_compute. reflexivity. Qed.
+(* myIpAddress falls back to 127.0.0.1; getClientVersion is "1.0" *)
+Lemma ob_my_ip_default : my_ip_default = b "127.0.0.1".
+Proof. vm_compute. reflexivity. Qed.
+Lemma ob_client_version : client_version = b "1.0".
 Proof. vm_compute. reflexivity. Qed.
 (* sortIpAddressList puts IPv6 addresses first *)
 Lemma ob_sort_ipv6_first : sort_ipv6_first = true.
@@ -38,4 +43,8 @@ Proof. vm_compute. repeat split; reflexivity. Qed.
 Lemma ob_parse_mode_default : parse_mode_has_default = true /\ parse_mode_default = b "DIRECT".
 Proof. vm_compute. split; reflexivity. Qed.
 Lemma ob_mode_direct : mode_direct = b "DIRECT".
+Proof. vm_compute. reflexivity. Qed.
+
+(* the transcribed bodies are the ones that were read *)
+Lemma ob_pinned : pinned = pinned_expected.
 Proof. vm_compute. reflexivity. Qed.
